@@ -1,6 +1,7 @@
 """JavaScript execution context."""
 
 import json
+from fractions import Fraction
 import math
 import random
 import time
@@ -700,9 +701,18 @@ class Context:
             if x == 0 or is_special(x):
                 return x
             root = math.cbrt(x)
-            nearest = round(root)
-            # exact cubes have exact roots
-            return float(nearest) if nearest**3 == x else root
+            # The host function is a few ulp off on some inputs: settle on the
+            # neighbouring double whose cube is closest to x (exact arithmetic)
+            target = Fraction(x)
+            miss = abs(Fraction(root) ** 3 - target)
+            for direction in (math.inf, -math.inf):
+                while miss:
+                    candidate = math.nextafter(root, direction)
+                    candidate_miss = abs(Fraction(candidate) ** 3 - target)
+                    if candidate_miss >= miss:
+                        break
+                    root, miss = candidate, candidate_miss
+            return root
 
         def log2_fn(*args):
             return log_of(math.log2, number_arg(args))
